@@ -32,7 +32,7 @@ ASSUMPTIONS = ['globs select pooled tasks only; explicit ids also future '
                'instances (model stops claiming when unsure)']
 MIN = {'c06.prep_checks': 300, 'c06.spawned_into_hold': 60,
        'restarts_compared': 25, 'held_tasks_at_restart': 15}
-NCASES = {'quick': 160, 'thorough': 2000}
+NCASES = {'quick': 500, 'thorough': 6000}
 MONS = ['c06', 'c26', 'rsnap']
 
 
